@@ -37,14 +37,14 @@ class SimObj:
 
 
 class Base(SimObj):
-    def __init__(self, n: float = 0, tags: List[float] = [1]):
+    def __init__(self, n: float = 0, tags: List[float] = [1.0]):
         self._rec(n=n, tags=tags)
         self.n = n
         self.tags = tags
 
 
 class Sub1(Base):
-    def __init__(self, n: float = 1, child: Optional[Base] = None, opts: Dict[str, float] = {"a": 1}):
+    def __init__(self, n: float = 1, child: Optional[Base] = None, opts: Dict[str, float] = {"a": 1.0}):
         self._rec(n=n, child=child, opts=opts)
         self.n = n
         self.child = child
@@ -108,13 +108,13 @@ class WithPath(SimObj):
 @dataclass
 class D:
     u: int = 1
-    w: List[float] = field(default_factory=lambda: [1, 2])
+    w: List[float] = field(default_factory=lambda: [1.0, 2.0])
 
 
 @dataclass
 class DP:
     q: Optional[Path_fr] = None
-    v: List[float] = field(default_factory=lambda: [0])
+    v: List[float] = field(default_factory=lambda: [0.0])
 
 
 class Color(Enum):
